@@ -472,5 +472,16 @@ _ADD_RULE = {
 for _k, _v in _ADD_RULE.items():
     PROPS[_k]["rule"] = PROPS[_k]["rule"] + _v
 
+
+# theorems about translated source added in this session (DESIGN §4.2a)
+_ADD_TECH = {
+    "C05": " The delivery filter (*Message).hasComplete is translated from the source on every run and proved equal to the model's isComplete (C05Src).",
+    "C10": " On the translated source (C10Src): T0x1210.Parse (first frame of every upload connection) with the alarm-sign block parser and the attachment-list loop is total for every body and dialect; the control-frame splitter (*PackageProgress).parseJT808Message never panics and consumes exactly one delimited candidate.",
+    "C07": " On the translated source (C07Src): encoders of 0x9201/0x9202/0x9205/0x9206/0x1005/0x9208/0x1210 and the alarm-sign block total (Time2BCD total for every string), round trips of eight fixed layouts, 0x0800, 0x1211, 0x8003, 0x9212.",
+    "C14": " C14Src: the bytes the translated P0x8003.Encode writes are the model's body8003.",
+}
+for _k, _v in _ADD_TECH.items():
+    PROPS[_k]["technique"] = PROPS[_k]["technique"] + _v
+
 # properties that are not claimed, with the reason (anything not listed and not in PROPS gets a generic "not built yet")
 NOT_APPLICABLE = {}
